@@ -122,8 +122,13 @@ class Ctx:
         cmd += list(extra) + ["-config", mod + ".cfg", mod + ".tla"]
         out = stdout_to or os.path.join(d, "out.txt")
         t0 = time.time()
+        # TLC leaves a tlc-<n> directory under java.io.tmpdir per run: keep it inside the scratch directory
+        jenv = dict(os.environ)
+        jtmp = os.path.join(self.scratch, "jtmp")
+        os.makedirs(jtmp, exist_ok=True)
+        jenv["JAVA_TOOL_OPTIONS"] = (jenv.get("JAVA_TOOL_OPTIONS", "") + " -Djava.io.tmpdir=" + jtmp).strip()
         with open(out, "w") as fo:
-            p = subprocess.run(cmd, cwd=d, stdout=fo, stderr=subprocess.STDOUT)
+            p = subprocess.run(cmd, cwd=d, stdout=fo, stderr=subprocess.STDOUT, env=jenv)
         wall = time.time() - t0
         res = {"name": name, "out": out, "dir": d, "rc": p.returncode, "wall_s": round(wall, 1),
                "generated": 0, "distinct": 0, "depth": 0, "violated": None, "errors": "",
@@ -186,6 +191,11 @@ class Ctx:
         """Run a harness sub-command; returns (rc, parsed JSON of the last stdout line or None, stderr)."""
         e = goenv()
         e["VERIF_SEED"] = str(self.seed)
+        # data directories of in-process servers (os.MkdirTemp) go into the scratch directory, which is removed at exit
+        # even when a driver dies
+        htmp = os.path.join(self.scratch, "htmp")
+        os.makedirs(htmp, exist_ok=True)
+        e["TMPDIR"] = htmp
         if env:
             e.update(env)
         try:
